@@ -3,6 +3,7 @@ package main
 import (
 	"fmt"
 	"go/types"
+	"regexp"
 	"strings"
 )
 
@@ -139,7 +140,10 @@ func (d *Decls) sortOf(t types.Type) Sort {
 	return SInt
 }
 
-func typeKey(t types.Type) string { return types.TypeString(t, nil) }
+var anyRe = regexp.MustCompile(`\bany\b`)
+
+// typeKey is a canonical text of a type ("any" and "interface{}" are the same type).
+func typeKey(t types.Type) string { return anyRe.ReplaceAllString(types.TypeString(t, nil), "interface{}") }
 
 func (d *Decls) structOf(t types.Type) *structInfo {
 	key := typeKey(t)
